@@ -56,6 +56,52 @@ def c05_body(ra, rb, labels, stereo, stereo_change, oa=None, ob=None):
     return (f"from vf.e3.isohash import c05_case\nok, why = c05_case({ref_code(ra)}, {ref_code(rb)}, {labels!r}, {stereo!r}, {stereo_change!r}, {oa!r}, {ob!r})\nprint(why)\n")
 
 
+def bookkeeping_case(ra: Ref, rb: Ref, labels, stereo, stereo_change, oa=None, ob=None):
+    """Side-car run-time contract on the REAL _update_state / _revert_state (the module looks both up at call time, so the
+    wrappers are what the real main loop calls): after every call, for both graphs,
+        frontier = unmapped atoms with a mapped neighbour,   external = the other unmapped atoms
+    - the post-condition proved for _update_state in e1_vf2 and, for _revert_state, 'the bookkeeping is restored exactly on
+    backtrack' (the invariant determines both sets from the mapping).  Returns (ok, why, number of contract evaluations)."""
+    import stereomolgraph.algorithms.isomorphism as iso
+
+    ga, gb = build_real(ra, oa), build_real(rb, ob)
+    real_u, real_r = iso._update_state, iso._revert_state
+    bad, n = [], [0]
+
+    def inv(which, a, b, state, params):
+        n[0] += 1
+        nb1, nb2 = params[0], params[1]
+        m, im, f1, e1, f2, e2 = state
+        for tag, nb, mp, f, e in (("1", nb1, m, f1, e1), ("2", nb2, im, f2, e2)):
+            ef = {x for x in nb if x not in mp and any(y in mp for y in nb[x])}
+            ee = {x for x in nb if x not in mp and x not in ef}
+            if (set(f) != ef or set(e) != ee) and not bad:
+                bad.append(f"after {which}({a}, {b}) with mapping {dict(m)}: frontier{tag}={sorted(f)} expected {sorted(ef)}, external{tag}={sorted(e)} expected {sorted(ee)}")
+
+    def upd(a, b, state, params):
+        r = real_u(a, b, state, params)
+        inv("_update_state", a, b, state, params)
+        return r
+
+    def rev(a, b, state, params):
+        r = real_r(a, b, state, params)
+        inv("_revert_state", a, b, state, params)
+        return r
+
+    iso._update_state, iso._revert_state = upd, rev
+    try:
+        _, err = safe(lambda: enum_real(ga, gb, labels, stereo, stereo_change))
+    finally:
+        iso._update_state, iso._revert_state = real_u, real_r
+    if bad:
+        return False, bad[0], n[0]
+    return True, "", n[0]
+
+
+def bookkeeping_body(ra, rb, labels, stereo, stereo_change, oa=None, ob=None):
+    return (f"from vf.e3.isohash import bookkeeping_case\nok, why, n = bookkeeping_case({ref_code(ra)}, {ref_code(rb)}, {labels!r}, {stereo!r}, {stereo_change!r}, {oa!r}, {ob!r})\nprint(why, n)\n")
+
+
 def run_c05(rep, tier, seed):
     rng = random.Random(seed + 5)
     distinct = 0
@@ -79,6 +125,7 @@ def run_c05(rep, tier, seed):
         G = {n: Group(rep, f"C05/bounded/{kind}/{n}") for n in
              ("automorphisms", "renamed-copy", "some-parities-unspecified-on-one-side", "one-descriptor-missing-on-one-side", "overlapping-identifier-sets", "caller-labels", "unrelated-pairs", "without-stereo-flags")}
         items = corpus(kind, seed)
+        BK = Group(rep, f"C05/bounded/{kind}/frontier-and-external-sets-follow-the-mapping-after-every-update-and-revert")
         for name, ref in items:
             if len(ref.atoms) > 8:
                 continue
@@ -89,11 +136,17 @@ def run_c05(rep, tier, seed):
             st, sc = (kind in ("SMG", "SCRG") and fs), (kind == "SCRG" and fs)
             ok, why = c05_case(ref, ref, None, st, sc)
             G["automorphisms"].case(ok, f"{name}: {why} {ref.describe()}", c05_body(ref, ref, None, st, sc), sample={"graph": name})
+            ok, why, nev = bookkeeping_case(ref, ref, None, st, sc)
+            BK.case(ok, f"{name}: {why}", bookkeeping_body(ref, ref, None, st, sc))
+            BK.n += max(nev - 1, 0)
             if not ref.atoms:
                 continue
             f = random_renaming(ref, rng)
             rb = respell(ref, rng).relabel(f.get) if ref.fully_specified() else ref.relabel(f.get)
             o = rng.randrange(10**6)
+            ok, why, nev = bookkeeping_case(ref, rb, None, False, False, None, o)
+            BK.case(ok, f"{name} vs renamed copy: {why}", bookkeeping_body(ref, rb, None, False, False, None, o))
+            BK.n += max(nev - 1, 0)
             ok, why = c05_case(ref, rb, None, st, sc, None, o)
             G["renamed-copy"].case(ok, f"{name}: {why} {ref.describe()} vs {rb.describe()}", c05_body(ref, rb, None, st, sc, None, o))
             if st and unambiguous(ref) and ref.atom_stereo:
@@ -138,6 +191,7 @@ def run_c05(rep, tier, seed):
                 G["unrelated-pairs"].case(ok, f"{why}: {ra.describe()} vs {rb.describe()}", c05_body(ra, rb, None, st, sc))
         for g in G.values():
             g.close()
+        BK.close()
     # topological symmetry number
     grp = Group(rep, "C05/bounded/SMG/topological_symmetry_number-counts-stereo-automorphisms")
     from stereomolgraph.experimental import topological_symmetry_number
